@@ -78,11 +78,44 @@ def fault_job(rxns):
     return {"n": n[0], "rows": returned[0], "bad": bad[:6]}
 
 
+HISTORY_BATCHES = FAULT_BATCHES + [["CCCO.O>>CCC(=O)O", "CCO>>CC=O"], ["CC(C)CO>>CC(C)C(=O)O.O", "CC(=O)C>>CC(O)C", "CCCCO.O>>CCCC(=O)O"],
+                                   ["OCc1ccccc1>>OC(=O)c1ccccc1", "CC>>CCC", "O=Cc1ccccc1>>OC(=O)c1ccccc1"]]
+
+
+def history_job(rxns):
+    """several calls on ONE fresh Balancer - the batch, the batch again, its reversal, row by row (batch_size 1), and the
+    batch doubled: every row that any of the calls returns solved must be balanced (nothing learnt in an earlier call
+    or batch may short-cut the validation of a later one)"""
+    from synrbl import Balancer
+
+    from mc import oracle, pipeline
+
+    b = Balancer(n_jobs=1)
+    bad, n = [], 0
+    calls = [(list(rxns), None), (list(rxns), None), (list(reversed(rxns)), None), (list(rxns), 1), (list(rxns) + list(rxns), 2)]
+    for k, (batch, bs) in enumerate(calls):
+        out = pipeline._run_on(b, {"rxns": batch, "batch_size": bs})
+        for i, row in enumerate(out["rows"] or []):
+            n += 1
+            if row.get("solved") and not oracle.balanced(row.get("reaction") or ""):
+                bad.append({"key": ["history", "solved-unbalanced", row.get("solved_by")], "call": k,
+                            "what": "call {} (batch_size {}) on one Balancer returns row {} ({}) solved by {} but unbalanced: {}".format(
+                                k + 1, bs, i, batch[i], row.get("solved_by"), row.get("reaction"))})
+    return {"n": n, "bad": bad[:4]}
+
+
 def run(tier, seed):
     us = universes(tier)
     res = pf.drive(PROPERTY, us, seed)
     from mc.pool import pmap
     from mc.report import Violation
+
+    rh = pmap("checks.c01:history_job", HISTORY_BATCHES, chunk=1, seed=seed, timeout=7200)
+    for b, x in zip(HISTORY_BATCHES, rh):
+        res.coverage["evaluations"] += x["n"]
+        for v in x["bad"]:
+            res.add(Violation("call-history", {"rxns": b}, None, None, v["key"], v["what"]))
+    res.coverage["call_histories"] = len(HISTORY_BATCHES)
 
     from mc.boot import HarnessError
 
@@ -91,7 +124,7 @@ def run(tier, seed):
     except HarnessError as e:
         # code that keeps state on the Balancer between runs shows different choice points in repeated executions;
         # that is reported through the localised histories above - without them it is a harness problem
-        if not any(v.case.get("history") for v in res.violations if isinstance(v.case, dict)):
+        if not res.violations:
             raise
         res.observations.append("fault sub-check skipped, executions are not independent: {}".format(str(e).splitlines()[0][:200]))
         rf = []
@@ -105,7 +138,7 @@ def run(tier, seed):
         "(one molecule per pipeline shortcut), a hand-built list for seams needing larger "
         "molecules, a heavy/ionic/isotopic/stereo/mapped family, thresholds {0,0.5,1} and batch "
         "sizes {None,1,3}; thorough adds the full 14-molecule alphabet and the complete "
-        "validation corpus; additionally every single failing joblib.Parallel call of two template-bearing batches (solved rows that are still returned must be balanced).  Non-trivial = distinct (stage, input) pairs of rows returned solved."
+        "validation corpus; additionally every single failing joblib.Parallel call of two template-bearing batches (solved rows that are still returned must be balanced), and five template-bearing batches through several calls on one fresh Balancer (again, reversed, row by row, doubled).  Non-trivial = distinct (stage, input) pairs of rows returned solved."
     )
     res.coverage["samples"] = [us[0][1][1], us[0][1][len(us[0][1]) // 2], us[1][1][0], us[1][1][-1]]
     res.assumptions = ["RDKit parser/valence model is the composition reference",
@@ -114,6 +147,11 @@ def run(tier, seed):
 
 
 def replay(v):
+    if v.sub == "call-history":
+        x = history_job(v.case["rxns"])
+        from mc.report import Violation
+
+        return [Violation("call-history", v.case, None, None, b["key"], b["what"]) for b in x["bad"] if b["key"] == v.key][:1]
     if v.sub == "fault":
         x = fault_job(v.case["rxns"])
         from mc.report import Violation
